@@ -96,9 +96,14 @@ TextWellFormed ==
 KeptBindingKinds == <<"catch", "catch_in_function", "function_own_name", "arguments", "local", "parameter",
                       "bound_argument", "bound_this">>
 Routes == <<"top", "ieval", "newfn">>
-KeptForms == [n \in 1..(Len(KeptBindingKinds) * 9) |->
-                [kb |-> KeptBindingKinds[((n - 1) \div 9) + 1], mk |-> Routes[(((n - 1) % 9) \div 3) + 1],
-                 ot |-> Routes[((n - 1) % 3) + 1], cls |-> ""]]
+\* x whose text the programs are: "own" = every program of a history is a text of its own (the value it binds is a literal
+\* in it), "same" = the making program and every later program of the history are ONE source text, given to the engine
+\* again and again (the value bound and whether the closure is kept are read from two host-set globals): whatever the
+\* engine remembers about a text it has seen (parsed / compiled programs, names made at compile time) is in the space
+TextModes == <<"own", "same">>
+KeptForms == [n \in 1..(Len(KeptBindingKinds) * 18) |->
+                [kb |-> KeptBindingKinds[((n - 1) \div 18) + 1], mk |-> Routes[(((n - 1) % 9) \div 3) + 1],
+                 ot |-> Routes[((n - 1) % 3) + 1], tx |-> TextModes[(((n - 1) % 18) \div 9) + 1], cls |-> ""]]
 \* quick: every kind of binding with both programs at top level, and every pair of routes for the catch parameter
 KeptQuick == {n \in 1..Len(KeptForms) : (KeptForms[n].mk = "top" /\ KeptForms[n].ot = "top") \/ KeptForms[n].kb = "catch"}
 
@@ -133,6 +138,9 @@ GridLaw ==
   /\ {KeptForms[n].kb : n \in KeptQuick} = {KeptForms[n].kb : n \in 1..Len(KeptForms)}
   /\ {KeptForms[n].mk : n \in KeptQuick} = {KeptForms[n].mk : n \in 1..Len(KeptForms)}
   /\ {KeptForms[n].ot : n \in KeptQuick} = {KeptForms[n].ot : n \in 1..Len(KeptForms)}
+  /\ {KeptForms[n].tx : n \in KeptQuick} = {KeptForms[n].tx : n \in 1..Len(KeptForms)}
+  /\ \A r1 \in 1..3, r2 \in 1..3, t \in 1..2 : \E n \in KeptQuick : KeptForms[n].mk = Routes[r1] /\ KeptForms[n].ot = Routes[r2]
+                                                                     /\ KeptForms[n].tx = TextModes[t]
   /\ {CarryForms[n].cr : n \in CarryQuick} = {CarryForms[n].cr : n \in 1..Len(CarryForms)}
   /\ {CarryForms[n].use : n \in CarryQuick} \cup {ArrayCallbackMethods[n] : n \in 1..Len(ArrayCallbackMethods)}
        = {CarryForms[n].use : n \in 1..Len(CarryForms)}
@@ -141,11 +149,21 @@ ASSUME GridLaw
 
 \* the parameters of a history besides its events: the target / form it works on (0 = none) and whether the
 \* contexts other than the first actor's are created only after the first event has run
-FamSpace == CASE IsInvAlphabet -> {[tj |-> j, late |-> b] : j \in InvTargets, b \in {0, 1}}
-              [] AlphabetName = "text" -> {[tj |-> j, late |-> b] : j \in TextTargets, b \in {0, 1}}
-              [] AlphabetName = "kept" -> {[tj |-> j, late |-> 0] : j \in IF InvSub = "all" THEN 1..Len(KeptForms) ELSE KeptQuick}
-              [] AlphabetName = "carry" -> {[tj |-> j, late |-> 0] : j \in IF InvSub = "all" THEN 1..Len(CarryForms) ELSE CarryQuick}
-              [] OTHER -> {[tj |-> 0, late |-> 0]}
+\* bb ("back to back"): 0 = every context is probed after every event - each probe is itself an evaluation that ends
+\* normally on the context; 1 = the events of the history follow one another with NO evaluation in between (outcome and
+\* result of every event are judged, the projection of every context is probed once, after the last event): what an eval
+\* that ended in an error left inside the context's machinery meets the very next program
+BBName == IF "BB" \in DOMAIN IOEnv THEN IOEnv.BB ELSE "0"
+BBs == CASE BBName = "both" -> {0, 1} [] BBName = "1" -> {1} [] OTHER -> {0}
+\* quick: back to back for the forms with both programs at top level (every kind of binding, both text modes)
+KeptBB(j, b) == b = 0 \/ InvSub = "all" \/ (KeptForms[j].mk = "top" /\ KeptForms[j].ot = "top")
+FamSpace == CASE IsInvAlphabet -> {[tj |-> j, late |-> b, bb |-> 0] : j \in InvTargets, b \in {0, 1}}
+              [] AlphabetName = "text" -> {[tj |-> j, late |-> b, bb |-> 0] : j \in TextTargets, b \in {0, 1}}
+              [] AlphabetName = "kept" -> {fm \in {[tj |-> j, late |-> 0, bb |-> b] : j \in IF InvSub = "all" THEN 1..Len(KeptForms) ELSE KeptQuick,
+                                                                                    b \in BBs} : KeptBB(fm.tj, fm.bb)}
+              [] AlphabetName = "carry" -> {[tj |-> j, late |-> 0, bb |-> b] : j \in IF InvSub = "all" THEN 1..Len(CarryForms) ELSE CarryQuick,
+                                                                               b \in BBs}
+              [] OTHER -> {[tj |-> 0, late |-> 0, bb |-> b] : b \in BBs}
 \* which kinds a history may use besides the alphabet: a path on the made object / into the intrinsics (family T)
 FamAllows(kd, fm) == /\ kd = "tx_make" => Inventory[fm.tj].via \in FreshVias
                      /\ kd = "tx_makei" => Inventory[fm.tj].via \in ChainVias
@@ -197,13 +215,15 @@ EnumExtend == /\ evn < MAXN
 Novel == ("NOVEL" \notin DOMAIN IOEnv) \/ IOEnv.NOVEL # "1"
          \/ \E n \in 1..Len(hist) : hist[n].k \in RedeclKinds \cup {"kb_make"}
 EnumFinish == /\ evn = MAXN /\ tl = 0
-              /\ Novel => PrintT(ToJson([h |-> hist, tj |-> fam.tj, late |-> fam.late, cls |-> FamClass(fam)]))
+              /\ Novel => PrintT(ToJson([h |-> hist, tj |-> fam.tj, late |-> fam.late, bb |-> fam.bb, cls |-> FamClass(fam)]))
               /\ tl' = 1
               /\ UNCHANGED <<cmvars, hist, fam, tid, tok, twhy, tdevs, tdat, tpois>>
 EnumNext == EnumExtend \/ EnumFinish
 
 \* ---------------- Trace -------------------------------------------------------------------------
-\* one line per history: [tid, nc, tj, cls, ev: <<[c, k, x, o, r, w, pr: <<projection of ctx 1, ...>>]>>]
+\* one line per history: [tid, nc, tj, cls, ev: <<[c, k, x, o, r, w, np, pr: <<projection of ctx 1, ...>>]>>]
+\* (np = 1: a back-to-back history, no context was probed after this event - pr is empty; outcome and result are judged,
+\*  the model state goes on as predicted and is compared with the probe after the last event)
 \* (tj >= 1: the history worked on an inventory target / a form; the model does not care which one.  cls: the class of
 \*  the target or form as the specification printed it: "fresh" / "chain" (family T), CarryForms[..].cls (family V), else "".
 \*  w: interpreter steps the event took, judged for cv_work only)
@@ -243,6 +263,7 @@ Clause(ev, pre, pred, nc, dev) ==
       bad(c)  == ev.pr[c] # Observe(post(c))
   IN IF ev.o \notin pred.os THEN [clause |-> "outcome", c |-> ev.c]
      ELSE IF pred.r # DontCare /\ ev.r # pred.r /\ dev = "" THEN [clause |-> "result", c |-> ev.c]
+     ELSE IF ev.np = 1 THEN [clause |-> "", c |-> 0]
      ELSE IF \E c \in 1..nc : ev.pr[c][PtrIx] # 1
           THEN [clause |-> "pointer", c |-> CHOOSE c \in 1..nc : ev.pr[c][PtrIx] # 1]
      ELSE IF \E c \in 1..nc : ev.pr[c][ExtraIx] # 0
@@ -255,7 +276,7 @@ Clause(ev, pre, pred, nc, dev) ==
 TraceInit == /\ tid \in 1..Len(Traces)
              /\ ctx = [c \in 1..Traces[tid].nc |-> NewCtx(LimitsOf(c))]
              /\ twin = <<>> /\ pc = Idle /\ evn = 0 /\ actor = 0 /\ last = "none" /\ hist = <<>>
-             /\ fam = [tj |-> 0, late |-> 0]
+             /\ fam = [tj |-> 0, late |-> 0, bb |-> 0]
              /\ tl = 1 /\ tok = TRUE /\ twhy = NoWhy /\ tdevs = {} /\ tdat = 0 /\ tpois = {}
 TraceNext ==
   /\ tl <= Len(Traces[tid].ev)
@@ -266,11 +287,12 @@ TraceNext ==
                     /\ (ev.k = "tx_make" => tr.cls = "fresh") /\ (ev.k = "tx_makei" => tr.cls = "chain")
                     \* cv_work that came back with a value: the calibrated work must lie inside the window the model assumes
                     /\ (ev.k = "cv_work" /\ ev.o = "value" => ev.w > POLL /\ ev.w < WORKMAX)
+                    /\ ev.np \in {0, 1} /\ (ev.np = 1 => tl < Len(tr.ev)) /\ (ev.np = 0 => Len(ev.pr) = tr.nc)
      IN IF ~enabled
         THEN \* the model cannot take this event at all: the generator left the specification (machinery)
              /\ tok' = FALSE
              /\ twhy' = IF tok THEN [at |-> tl, clause |-> "unsupported", c |-> ev.c, exp |-> <<>>] ELSE twhy
-             /\ ctx' = [c \in 1..tr.nc |-> Adopt(ctx[c], ev.pr[c])]
+             /\ ctx' = IF Len(ev.pr) = tr.nc THEN [c \in 1..tr.nc |-> Adopt(ctx[c], ev.pr[c])] ELSE ctx
              /\ UNCHANGED <<evn, actor, last, tdevs, tdat, tpois>>
         ELSE LET spec == RunEvent(ctx[ev.c], ev.k, ev.x)
                  clS == Clause(ev, ctx, spec, tr.nc, "")
@@ -284,7 +306,7 @@ TraceNext ==
                  pred == IF useDev THEN predA ELSE spec
                  cl == IF useDev THEN clA ELSE clS
                  good == cl.clause = ""
-             IN /\ ctx' = IF good THEN [ctx EXCEPT ![ev.c] = pred.st]
+             IN /\ ctx' = IF good \/ ev.np = 1 THEN [ctx EXCEPT ![ev.c] = pred.st]     \* (nothing observed to resync with)
                           ELSE [c \in 1..tr.nc |-> Adopt(ctx[c], ev.pr[c])]       \* resync, keep going
                 /\ tok' = (tok /\ good)
                 /\ twhy' = IF tok /\ ~good
